@@ -24,7 +24,15 @@
 
     NOT proved: what the state looks like after a Rollback that returned an
     error (nothing is claimed beyond the error class); faults combined with
-    crash points. *)
+    crash points.
+
+    The law-level statements are parameterised by [hid]/[anc] (what the base
+    hides: paths at or below a hidden location, its proper ancestors; [nohid]
+    for a base that hides nothing) and the Rollback statements from an
+    arbitrary invariant state ask for [loc_ok hid anc B0] (see Props/C01.v);
+    the [*_documented] theorems at the end of the file are the closed
+    instances for the documented layering (location inside the base tree,
+    hidden by HiddenFS: Proofs/LawsHidden*.v). *)
 From stdpp Require Import gmap.
 From BFS Require Import Spec.Faults Spec.ViewOsfs.
 From BFS Require Import Proofs.LawsOsfsBase Proofs.LawsOsfs Proofs.ConcreteExample.
@@ -32,10 +40,10 @@ From BFS Require Import Proofs.FaultLib Proofs.FaultTry Proofs.FaultRollback Pro
                         Proofs.FaultExample.
 
 Theorem C09_nil_only_if_restored :
-  forall base backup Vb Vk tnb tnk accb acck rhb rhk whb whk B0 tagb tagk,
-  base_laws base Vb Vk tnb accb rhb whb -> backup_laws backup Vb Vk tnk acck rhk whk ->
+  forall base backup Vb Vk tnb tnk accb acck rhb rhk whb whk hid anc B0 tagb tagk,
+  base_laws base Vb Vk tnb accb rhb whb hid anc -> backup_laws backup Vb Vk tnk acck rhk whk ->
   fault_laws base Vb tagb rhb whb -> fault_laws backup Vk tagk rhk whk ->
-  links_ok tnb tnk accb acck B0 -> all_small B0 -> swf B0 ->
+  links_ok tnb tnk accb acck B0 -> all_small B0 -> swf B0 -> loc_ok hid anc B0 ->
   forall w r w', InvF Vb Vk B0 w -> b_rollback base backup w = (r, w') ->
   r <> MHalt /\
   (r = MOk tt -> store_eqv (Vb w') B0 /\ (forall p, p <> s_root -> Vk w' !! p = None) /\
@@ -44,10 +52,10 @@ Proof. exact rollback_nil_restored. Qed.
 Print Assumptions C09_nil_only_if_restored.
 
 Theorem C09_rollback_single_fault :
-  forall base backup Vb Vk tnb tnk accb acck rhb rhk whb whk B0 tagb tagk,
-  base_laws base Vb Vk tnb accb rhb whb -> backup_laws backup Vb Vk tnk acck rhk whk ->
+  forall base backup Vb Vk tnb tnk accb acck rhb rhk whb whk hid anc B0 tagb tagk,
+  base_laws base Vb Vk tnb accb rhb whb hid anc -> backup_laws backup Vb Vk tnk acck rhk whk ->
   fault_laws base Vb tagb rhb whb -> fault_laws backup Vk tagk rhk whk ->
-  links_ok tnb tnk accb acck B0 -> all_small B0 -> swf B0 ->
+  links_ok tnb tnk accb acck B0 -> all_small B0 -> swf B0 -> loc_ok hid anc B0 ->
   forall w, InvF Vb Vk B0 w -> single (w_faults w) ->
   exists r w', b_rollback base backup w = (r, w') /\ r <> MHalt /\ w_crash w' = None /\
     (r = MOk tt -> store_eqv (Vb w') B0 /\ (forall p, p <> s_root -> Vk w' !! p = None) /\
@@ -86,3 +94,34 @@ Theorem C09_fault_example :
   fst (b_rollback cbase cbackup (with_faults ConcreteExample.w [f3])) = MErr ERollback.
 Proof. exact f3_rollback_fails. Qed.
 Print Assumptions C09_fault_example.
+
+(** Rollback under any fault plan returns nil only if restored, closed, for the
+    DOCUMENTED layering (location inside the base tree, hidden by HiddenFS:
+    Proofs/LawsHidden.v) *)
+From BFS Require Import Spec.ViewHidden Proofs.LawsHidden.
+
+Theorem C09_nil_only_if_restored_documented :
+  forall pa h, prefix_ok pa -> hidden_ok h ->
+  forall B0, links_ok clean clean (acc_h pa h) (acc_p (pk_h pa h)) B0 -> all_small B0 -> swf B0 ->
+  loc_ok (hid_h h) (anc_h h) B0 ->
+  forall w r w', InvF (VpH pa h) (Vp (pk_h pa h)) B0 w ->
+  b_rollback (cfg_base (dcfg pa h)) (cfg_backup (dcfg pa h)) w = (r, w') ->
+  r <> MHalt /\
+  (r = MOk tt -> store_eqv (VpH pa h w') B0 /\ (forall p, p <> s_root -> Vp (pk_h pa h) w' !! p = None) /\
+                 w_infos w' = ∅).
+Proof. exact rollback_nil_documented. Qed.
+Print Assumptions C09_nil_only_if_restored_documented.
+
+Theorem C09_history_single_fault_documented :
+  forall pa h, prefix_ok pa -> hidden_ok h ->
+  forall B0, all_small B0 ->
+  forall w0 ops w,
+    initialF (VpH pa h) (Vp (pk_h pa h)) clean clean (acc_h pa h) (acc_p (pk_h pa h)) B0 w0 ->
+    good_run (cfg_base (dcfg pa h)) (cfg_backup (dcfg pa h)) (VpH pa h) w0 ops w ->
+  InvF (VpH pa h) (Vp (pk_h pa h)) B0 w /\ recoverable (VpH pa h) (Vp (pk_h pa h)) B0 w /\
+  exists r w', b_rollback (cfg_base (dcfg pa h)) (cfg_backup (dcfg pa h)) w = (r, w') /\ r <> MHalt /\
+    (r = MOk tt -> store_eqv (VpH pa h w') B0 /\ (forall p, p <> s_root -> Vp (pk_h pa h) w' !! p = None) /\
+                   w_infos w' = ∅) /\
+    (spent w -> r = MOk tt).
+Proof. exact run_fault_documented. Qed.
+Print Assumptions C09_history_single_fault_documented.
